@@ -4,6 +4,6 @@ CONSTANT Emit = TRUE
 CONSTANT StateNames = {"z0", "y1", "mix1"}
 CONSTANT GateNames = {"h", "x90", "ad"}
 CONSTANT MProcNames = {"mz", "m3", "m4"}
-CONSTANT PovmNames = {"y", "p3", "p4"}
+CONSTANT PovmNames = {"y", "p3", "p4", "p5"}
 CONSTANT GenModes = {0, 1, 2}
 INVARIANT EmitCase
